@@ -312,12 +312,13 @@ def run(ch: Checker) -> None:
     ip_ok = dns_ok = False
     bad = None
     for p in fpaths(ge):
+        sym6 = Sym(p)
         for i, n_, lab in p.executed():
             if n_.kind != 'stmt':
                 continue
             for c in walk_no_nested(n_.ast):  # type: ignore[arg-type]
                 if isinstance(c, ast.Call) and isinstance(c.func, ast.Attribute) and c.func.attr == 'append' and c.args:
-                    t = norm(c.args[0])
+                    t = norm(sym6.value(c.args[0], i))
                     in_handler = any(g2.kind == 'handler' and 'ValueError' in norm(g2.ast.type) for nid, l2 in p.steps[:i] for g2 in [ge.nodes[nid]] if g2.kind == 'handler' and g2.ast.type is not None)  # type: ignore[union-attr]
                     ipcall = any(isinstance(cc, ast.Call) and attr_chain(cc.func) == 'ipaddress.ip_address' for j, s2 in p.stmts() if j < i for cc in walk_no_nested(s2))
                     if t.startswith("b'IP:"):
